@@ -59,6 +59,7 @@ def main():
     def wrap(name, fn):
         def w(payload, *a, **k):
             pb = bytes(payload)
+            emit({"codec_enter": name})
             try:
                 r = fn(payload, *a, **k)
             except BaseException as e:  # noqa: BLE001
@@ -107,7 +108,8 @@ def main():
         for r in b:
             recs.append(canon(r))
 
-    signal.signal(signal.SIGALRM, _alarm)
+    signal.signal(signal.SIGPROF, _alarm)   # CPU-time limit: immune to a loaded machine
+    pending_free = []
     emit({"hello": impl, "pid": os.getpid(), "start": start})
     for idx in range(start, len(cases)):
         c = cases[idx]
@@ -128,7 +130,7 @@ def main():
         ptr = None
         status = None
         nbatches = 0
-        signal.setitimer(signal.ITIMER_REAL, tmo)
+        signal.setitimer(signal.ITIMER_PROF, tmo)
         try:
             try:
                 if c["mode"] == "mr":
@@ -156,7 +158,7 @@ def main():
                     b = None
                 status = "done"
             finally:
-                signal.setitimer(signal.ITIMER_REAL, 0)
+                signal.setitimer(signal.ITIMER_PROF, 0)
         except CaseTimeout:
             status = "timeout"
         except BaseException as e:  # noqa: BLE001
@@ -171,9 +173,15 @@ def main():
         else:
             msg = ""
         b = mr = buf = None
-        gc.collect()
         if ptr is not None:
-            libc.free(ptr)
+            pending_free.append(ptr)
+        if len(pending_free) >= 256:
+            # the foreign blocks are released in bulk, after a full collection, so that no batch
+            # object can still point into them
+            gc.collect()
+            for q in pending_free:
+                libc.free(q)
+            del pending_free[:]
         emit({"id": c["id"], "idx": idx, "status": status, "recs": recs,
               "msg": msg if status.startswith("raise") else "", "nbatches": nbatches,
               "asan_log_end": log_size()})
